@@ -854,8 +854,38 @@ def check_bounds(rep, tier, seed):
             rep.violation("impl-vs-spec", f"self-play: position {b} is not a legal successor of {a}", got, replay_ops=replay)
             break
     stats["selfplay_wall_s"] = int(time.time() - t0)
+    check_session_growth(rep, stats)
     stats["cases"] = len(cases)
     return stats, kinds, cases
+
+
+def check_session_growth(rep, stats):
+    """A UCI session that sends `go` far more often than the state stack has entries — without a new `position`, and
+    after a game of maximal accepted length: whatever the engine does with its game between commands, nothing may
+    grow past a capacity. The session must stay alive (isready answered) and end with exit status 0."""
+    from .engine import Engine
+    shuffle = "g1f3 g8f6 f3g1 f6g8"
+    long_game = "position startpos moves " + " ".join([shuffle] * 99)     # 396 plies: accepted (guard at 400)
+    for name, pre, n in (("bare kings", "position fen 4k3/8/8/8/8/8/8/4K3 w - - 0 1", 560), ("after a 396-ply game", long_game, 130)):
+        e = Engine()
+        replay = [pre] + ["go depth 1 (x%d)" % n]
+        try:
+            if e.sync(20) is None:
+                return
+            e.send(pre)
+            alive = True
+            for k in range(n):
+                e.send("go depth 1")
+                if k % 40 == 39 or k == n - 1:
+                    if e.sync(20) is None:
+                        alive = False
+                        break
+            stats["session_growth_go_commands"] += n
+        finally:
+            rc, err = e.close()
+        if not alive or rc != 0 or "panicked" in (err or ""):
+            rep.violation("impl-vs-spec", f"session `{name}`: the engine did not survive {n} `go` commands without a new `position` (rc={rc})",
+                          (err or "")[-600:], replay_ops=replay)
 
 
 REPETITION_FINDING = ("the repetition guard of get_best_move_entry (search.rs) takes the only move that keeps a forced mate in two out of the "
